@@ -1,6 +1,8 @@
 import Driver.OpsBot
 import Driver.OpsGlue
 import TakVerif.Impl.BotCompose
+import TakVerif.Impl.BotLevel
+import TakVerif.Impl.TextGlue
 /-! C07 composed ops: the model side of `harness/verifh/ops_compose.go` — the bot loop with the real `Friendly` /
 `Taktician` as its `Bot` (`Impl/BotCompose.lean`), the searching player a stub answering what `cev answer` says. -/
 namespace Driver
@@ -24,14 +26,43 @@ def cIn (s : Compose.St Unit Move) : String :=
     let kind := match call.act with | .think _ _ => "think" | _ => "resign"
     s!"{kind}:{call.pos.move}:{call.pos.hashOf.toNat}:{canc}"
 
-def cSummary (b : Compose.Session) (r : String) : String :=
-  let s := b.st
-  if b.noGame then s!"{cStatus s} nogame r={r}" else
-  let last := match s.wire.getLast? with | some c => fmtWire c | none => "-"
-  s!"{cStatus s} n={s.b.positions.length} m={s.b.moves.length} h={s.b.p.hashOf.toNat} w={s.wire.length}:{last} in={cIn s} c={s.entered} r={r}"
+def fmtReply : LevelReply → Int → String
+  | .max, _ => "max"
+  | .unknown, _ => "unknown"
+  | .future, l => s!"future:{l}"
+  | .now, l => s!"now:{l}"
+  | .bad, _ => "bad"
 
-def cFull (b : Compose.Session) : String :=
-  let s := b.st
+def fmtWireL : WireL → String
+  | .base w => fmtWire w
+  | .reply toOpp r l => "L:" ++ (if toOpp then "o" else "x") ++ ":" ++ fmtReply r l
+  | .help toOpp l => "L:" ++ (if toOpp then "o" else "x") ++ s!":help:{l}"
+
+/-- `f.level`, how often `f.ai` was rebuilt, the `Depth` of the engine built last (after `NewMinimax`'s `0 ↦ maxDepth`),
+the build of the `f.ai` object the search in progress runs on -/
+def cLv (b : Compose.SessionL) : String :=
+  match b.c.who with
+  | .taktician _ => "-"
+  | .friendly _ =>
+    let L := b.L
+    let depth : Int := match L.builtLevel with
+      | none => -1
+      | some l => match levelDepth l with
+        | .ok d => if d == 0 then Facts.maxDepth else (d : Int)
+        | .error _ => -2
+    let gen := match L.s.inside with
+      | some call => (match call.act with | .think _ _ => toString L.insideGen | _ => "-")
+      | none => "-"
+    s!"{L.level}:{L.built}:{depth}:{gen}"
+
+def cSummary (b : Compose.SessionL) (r : String) : String :=
+  let s := b.L.s
+  if b.noGame then s!"{cStatus s} nogame r={r}" else
+  let last := match b.L.wire.getLast? with | some c => fmtWireL c | none => "-"
+  s!"{cStatus s} n={s.b.positions.length} m={s.b.moves.length} h={s.b.p.hashOf.toNat} w={b.L.wire.length}:{last} in={cIn s} c={s.entered} lv={cLv b} r={r}"
+
+def cFull (b : Compose.SessionL) : String :=
+  let s := b.L.s
   if b.noGame then s!"{cStatus s} nogame" else
   let res := if s.b.result.isEmpty then "-" else hexOf s.b.result
   let ps := s.b.positions.reverse.map (fun p => s!"{p.move}:{p.hashOf.toNat}")
@@ -40,7 +71,7 @@ def cFull (b : Compose.Session) : String :=
     | none => "-"
     | some (_, r) =>
       s!"bp={r.blackPlaceX},{r.blackPlaceY};wp={r.whitePlaceX},{r.whitePlaceY};bt={r.blackTmpX},{r.blackTmpY};wt={r.whiteTmpX},{r.whiteTmpY}"
-  s!"{cStatus s} result={res} pos={joinSemi ps} moves={joinSemi ms} p={s.b.p.hashOf.toNat} times={s.b.mine},{s.b.theirs} wire={joinSemi (s.wire.map fmtWire)} in={cIn s} c={s.entered} notes={notes}"
+  s!"{cStatus s} result={res} pos={joinSemi ps} moves={joinSemi ms} p={s.b.p.hashOf.toNat} times={s.b.mine},{s.b.theirs} wire={joinSemi (b.L.wire.map fmtWireL)} in={cIn s} c={s.entered} notes={notes}"
 
 def handleCompose : Handler := fun st op args =>
   match op, args with
@@ -61,11 +92,11 @@ def handleCompose : Handler := fun st op args =>
         let guard := auxOf rest "v=" != some "pinned"
         let bcfg : Bot.Conf := { basis := st.basis, color := color, gameStr := "Game#" ++ gameNo, fixed := true }
         let c : Compose.Conf := { bot := bcfg, size := size, who := who, guard := guard, observe := colour == "o" }
-        let s0 : Compose.St Unit Move := Compose.start c secs ()
-        let noGame := s0.b.status != .running
+        let L0 : Compose.StL Unit Move := Compose.startL c secs (fun _ => ()) Facts.defaultLevel
+        let noGame := L0.s.b.status != .running
         let chk : CheckOracle := { curV := 0, curDepth := 3, prevV := 0 }
-        let b : Compose.Session :=
-          { c := c, st := if noGame then s0 else Compose.settle c stubSearcher chk s0, chk := chk, noGame := noGame }
+        let b : Compose.SessionL :=
+          { c := c, L := if noGame then L0 else Compose.settleLN c stubSearcher chk 2000 L0, chk := chk, noGame := noGame }
         some ({ st with cbot := some b, bot := none }, cSummary b "new")
     | _, _ => some (st, "bad-op")
   | "cchk", [a, b, d] =>
@@ -80,12 +111,13 @@ def handleCompose : Handler := fun st op args =>
     match st.cbot with
     | none => some (st, "nobot")
     | some b =>
-      let fin (s : Compose.St Unit Move) (r : String) : Option (St × String) :=
-        let b' := { b with st := s }
+      let fin (L : Compose.StL Unit Move) (r : String) : Option (St × String) :=
+        let b' := { b with L := L }
         some ({ st with cbot := some b' }, cSummary b' r)
-      if b.st.dead.isSome then fin b.st "dead" else
-      let alive := b.st.b.status = .running
-      let go (e : Compose.Ev Move) := Compose.tieStep b.c stubSearcher b.chk b.st e
+      if b.L.s.dead.isSome then fin b.L "dead" else
+      let alive := b.L.s.b.status = .running
+      let goL (e : Compose.EvL Move) := Compose.tieStepL b.c stubSearcher (fun _ => ()) b.chk b.L e
+      let go (e : Compose.Ev Move) := goL (.base e)
       match kind, rest with
       | "deliver", h :: aux =>
         match (if h == "-" then some "" else (unhex h).bind String.fromUTF8?) with
@@ -94,26 +126,38 @@ def handleCompose : Handler := fun st op args =>
           let parsed := match auxOf aux "mv=" with
             | some tok => parseMove tok
             | none => none
-          if !alive then fin b.st "gone" else fin (go (.deliver (line.splitOn " ") parsed)) "ok"
-      | "close", _ => if !alive then fin b.st "gone" else fin (go .close) "ok"
+          if !alive then fin b.L "gone" else
+          -- a line `Tell <who> msg` (what `playtak.ParseTell` accepts) goes to `Bot.HandleTell` first
+          let tell? : Option (String × String) :=
+            match TextGlue.parseTell TextGlue.regexpInst line.toUTF8.toList with
+            | .ok [who, msg] =>
+              if who.isEmpty then none else
+              match String.fromUTF8? (ByteArray.mk who.toArray), String.fromUTF8? (ByteArray.mk msg.toArray) with
+              | some w, some m => some (w, m)
+              | _, _ => none
+            | _ => none
+          match tell? with
+          | some (who, msg) => fin (goL (.tell who msg)) "ok"
+          | none => fin (go (.deliver (line.splitOn " ") parsed)) "ok"
+      | "close", _ => if !alive then fin b.L "gone" else fin (go .close) "ok"
       | "timer", _ =>
-        let fired := alive ∧ b.st.b.timeout = true
+        let fired := alive ∧ b.L.s.b.timeout = true
         fin (go .timerFires) (if fired then "fired" else "idle")
       | "answer", [mtok] =>
         match parseMove mtok with
         | none => some (st, "bad-move")
         | some m =>
-          if b.noGame then fin b.st "noai" else
-          match b.st.inside with
+          if b.noGame then fin b.L "noai" else
+          match b.L.s.inside with
           | some call =>
             match call.act with
             | .think _ _ =>
-              let canc := match Compose.thinkerAt b.st.b call.k with
+              let canc := match Compose.thinkerAt b.L.s.b call.k with
                 | some t => if t.cancelled then 1 else 0
                 | none => 0
               fin (go (.leave call.k m)) s!"ai:{call.pos.move}:{canc}"
-            | _ => fin b.st "noai"
-          | none => fin b.st "noai"
+            | _ => fin b.L "noai"
+          | none => fin b.L "noai"
       | _, _ => some (st, "bad-op")
   | _, _ => none
 
